@@ -434,6 +434,14 @@ class C12(Check):
             ops = [("get", "s1"), ("edit", "top.yaml", bad), ("get", "s1"), ("get", "s2"), ("edit", "top.yaml", BASE["top.yaml"]),
                    ("get", "s1")]
             yield {"base": BASE, "ops": ops, "cache_size": 64, "engine": False, "ml": False, "ms": True, "allow_empty": bad == ""}
+        # a legal include chain of depth 20: the deepest and a middle file are edited, nested nulls arrive later
+        chain = {"top.yaml": "'*': [l1]\n"}
+        for i in range(1, 21):
+            chain["l%d.yaml" % i] = "d%d: %d\nshared: {at: %d, k: {v: %d}}\n%s" % (i, i, i, i, "include: [l%d]\n" % (i + 1) if i < 20 else "")
+        ops = [("get", "s1"), ("edit", "l20.yaml", "shared: {k: {v: ~}}\n"), ("get", "s1"), ("edit", "l10.yaml", "z: 1\ninclude: [l11]\n"),
+               ("get", "s1"), ("delete", "l20.yaml"), ("get", "s1"), ("edit", "l20.yaml", "w: 1\n"), ("get", "s1")]
+        for cs in (1, 64):
+            yield {"base": chain, "ops": ops, "cache_size": cs, "engine": False, "ml": False, "ms": True, "allow_empty": False}
         for base, ops in race_histories():
             for engine in (True, False):
                 if (base is BASE_T) != engine:
